@@ -15,7 +15,7 @@ pub const DEF: PropDef = PropDef {
     run,
     replay,
     level: "exploration",
-    rule: "cases = (cipher x hash x DH suite, backend default / ring-first, read path in {handshake payload of message i of NN/XX/IK/N/KK/XXpsk3, stateful transport, stateless transport}, high-entropy plaintext of 32..4096 bytes, alteration that keeps the key correct: one bit of the tag, one byte of the body, last byte dropped, or (handshake) the associated data only - an earlier unauthenticated payload altered so that h differs while the key does not -, caller's output buffer pre-filled with a pattern and sized exact / +1 / = message length / larger). Oracle: the read returns Err and afterwards NO 8-byte window of the genuine plaintext occurs anywhere in the caller's buffer (decrypt-then-verify or copy-before-check would put it there; chance coincidence 2^-64 per window). The unaltered message is then read successfully (control). Non-trivial = rejected read with the correct key in place; distinct by full case",
+    rule: "cases = (cipher x hash x DH suite, backend default / ring-first, read path in {handshake payload of message i of NN/XX/IK/N/KK/XXpsk3, stateful transport, stateless transport}, high-entropy plaintext of 32..65000 bytes (classes 32..4096, 16384, 32767/32768, 40000, 65000), alteration that keeps the key correct: one bit of the tag, one byte of the body, last byte dropped, or (handshake) the associated data only - an earlier unauthenticated payload altered so that h differs while the key does not -, caller's output buffer pre-filled with a pattern and sized exact / +1 / = message length / larger). Oracle: the read returns Err and afterwards NO 8-byte window of the genuine plaintext occurs anywhere in the caller's buffer (decrypt-then-verify or copy-before-check would put it there; chance coincidence 2^-64 per window). The unaltered message is then read successfully (control). Non-trivial = rejected read with the correct key in place; distinct by full case",
     technique: "invariant check on the caller-visible buffer after injected authentication failures (enumeration over paths x backends x buffer sizes + proptest)",
     assumptions: &["only alterations that leave the decryption key correct are generated - with a wrong key no implementation can produce the plaintext"],
     panic_is_violation: false,
@@ -227,7 +227,7 @@ pub fn run(ctx: &Ctx) {
                         if ctx.tier.pick((k + suite_idx as u64) % 2 != 0, false) {
                             continue;
                         }
-                        cases.push(Case { path: path.clone(), suite_idx, backend, plen: [32usize, 33, 64, 100, 1000, 4096][(k % 6) as usize], alter, bufsize, seed: mix(ctx.seed, k) });
+                        cases.push(Case { path: path.clone(), suite_idx, backend, plen: [32usize, 33, 64, 100, 1000, 4096, 16384, 32768, 40000, 65000][(k % 10) as usize], alter, bufsize, seed: mix(ctx.seed, k) });
                     }
                 }
             }
@@ -241,7 +241,7 @@ pub fn run(ctx: &Ctx) {
         || {
             let ps = paths();
             let alter = prop_oneof![3 => any::<u8>().prop_map(Alter::TagBit), 3 => any::<u16>().prop_map(Alter::BodyByte), 1 => Just(Alter::DropLast), 1 => Just(Alter::Ad)];
-            (0usize..10, 0usize..24, any::<bool>(), 32usize..4097, alter, 0u8..4, any::<u64>()).prop_map(move |(p, suite_idx, ring, plen, alter, bufsize, seed)| Case {
+            (0usize..10, 0usize..24, any::<bool>(), prop_oneof![6 => 32usize..4097, 2 => 4097usize..65000, 1 => Just(32767usize), 1 => Just(32768usize), 1 => Just(65000usize)], alter, 0u8..4, any::<u64>()).prop_map(move |(p, suite_idx, ring, plen, alter, bufsize, seed)| Case {
                 path: ps[p].clone(),
                 suite_idx,
                 backend: if ring { Backend::RingFirst } else { Backend::Default },
